@@ -230,6 +230,45 @@ pub fn run(tier: &str, seed: u64, only: Option<&str>) -> Run {
             Err(e) => run.fail("oracle:generate-state-panic", "", &id, e, repro.clone()),
         }
         let _: &Beatmap = &map;
+        // --- converts: the map route through `try_mode` vs the attribute route ---
+        if mode != 0 && i % 3 == 0 {
+            let mut ocfg = GenCfg::small(0);
+            ocfg.max_objects = 8;
+            let otext = random_map(&mut rng, &ocfg).render();
+            let Ok(omap) = decode(&otext) else { continue };
+            for round in 0..4u32 {
+            let mut cspec = if round == 0 { spec.clone() } else { random_spec(&mut rng, 8) };
+            cspec.n_katu = None;
+            cspec.n_geki = None;
+            if round % 2 == 1 {
+                cspec.worst = true;
+                cspec.n100 = None;
+            }
+            let crepro = format!("convert osu->{} settings={} spec={cspec:?} map=<<\n{otext}>>", mode_name(mode), settings.describe());
+            let Ok(cattrs) = one_shot(&difficulty, &omap, gm) else { break };
+            let via_attrs = guarded(|| format!("{:?}", cspec.apply(Performance::new(cattrs.clone()).difficulty(difficulty.clone())).calculate()));
+            let via_map = guarded(|| {
+                cspec
+                    .apply(Performance::new(&omap).difficulty(difficulty.clone()))
+                    .try_mode(gm)
+                    .map(|p| format!("{:?}", p.calculate()))
+                    .map_err(|_| "refused".to_owned())
+            });
+            run.count("convert-entry-points");
+            match (via_attrs, via_map) {
+                (Ok(a), Ok(Ok(b))) if a == b => {}
+                (Ok(a), Ok(Ok(b))) => run.fail(
+                    "oracle:convert-map-route-ne-attrs-route",
+                    "",
+                    &id,
+                    format!("from attributes: {a}\nfrom the map via try_mode: {b}"),
+                    crepro,
+                ),
+                (Err(_), Err(_)) => run.count("convert-both-panic"),
+                _ => run.fail("oracle:convert-entry-error", "", &id, String::new(), crepro),
+            }
+            }
+        }
     }
     run
 }
